@@ -410,6 +410,12 @@ func (r *Run) Finish() {
 	ev["verdict"] = verdict
 
 	dir := filepath.Join(r.Root, "evidence")
+	if d := os.Getenv("VERIF_EVIDENCE_DIR"); d != "" {
+		dir = d // an extra pass (./check runs one per environment setting) keeps the main evidence
+	}
+	if p := os.Getenv("VERIF_ENV_PASS"); p != "" {
+		ev["environment_pass"] = p
+	}
 	os.MkdirAll(dir, 0o755)
 	b, _ := json.MarshalIndent(ev, "", " ")
 	if err := os.WriteFile(filepath.Join(dir, r.ID+".json"), append(b, '\n'), 0o644); err != nil {
